@@ -602,11 +602,14 @@ func (p *Process) StartWith(ctx context.Context, element schema.FlowNodeInterfac
 	}
 	switch eventNode := flowNode.(type) {
 	case *startEvent:
-		eventNode.Trigger(ctx)
-
-		// StartAll cease flow monitor
+		// StartAll cease flow monitor: it must be subscribed to the traces
+		// before the start event is triggered, otherwise the start event's
+		// flow trace can be broadcast before the monitor listens and the
+		// instance is never reported complete.
 		sender := p.tracer.RegisterSender()
-		go p.ceaseFlowMonitor(p.subTracer)(ctx, sender)
+		monitor := p.ceaseFlowMonitor(p.subTracer)
+		eventNode.Trigger(ctx)
+		go monitor(ctx, sender)
 		p.tracer.Send(InstantiationTrace{InstanceId: p.id})
 
 	case *throwEvent:
